@@ -177,7 +177,13 @@ pub enum PayClass {
 }
 
 fn utf8_multibyte(n: usize) -> BS<Vec<u8>> {
-    vec(prop_oneof![Just("\u{e9}"), Just("\u{4e2d}"), Just("\u{1f600}"), Just("a"), Just("\u{df}"), Just(" ")], 1..=n.max(1)).prop_map(|v| v.concat().into_bytes()).boxed()
+    // arbitrary scalar values plus the code points at the UTF-8 width boundaries and the ones that
+    // have a special meaning to decoders (U+FFFD replacement character, BOM, NUL, DEL)
+    let special = proptest::sample::select(vec!['\u{fffd}', '\u{feff}', '\u{0}', '\u{7f}', '\u{80}', '\u{7ff}', '\u{800}', '\u{ffff}', '\u{10000}', '\u{10ffff}', '\u{e9}', '\u{4e2d}', '\u{1f600}', '\u{df}']);
+    vec(prop_oneof![3 => special, 3 => any::<char>(), 2 => proptest::char::range('a', 'z')], 1..=n.max(1))
+        .prop_map(|v| v.into_iter().filter(|c| *c != '\n' && *c != '\r').collect::<String>().into_bytes())
+        .prop_map(|v| if v.is_empty() { "\u{fffd}".as_bytes().to_vec() } else { v })
+        .boxed()
 }
 
 /// OP_RETURN payloads by class. Never contains a byte sequence that looks like a log line prefix.
